@@ -95,3 +95,23 @@ REGISTRY["C15"] = {
             "at least two kernel executions",
     "components": REAL_KERNEL, "assumptions": KERNEL_ASSUME,
 }
+REGISTRY["C16"] = {
+    "world": KernelSim, "level": "exploration", "budget": kernel_budget(20000, 400000),
+    "rule": "each evaluation is one sampled (einsum, operands, dataflow) whose session is executed under every flush "
+            "threshold in {2,3,5,7,64,1000} with all trace types registered, and twice with consumable traces drained "
+            "at scheduler-chosen loop boundaries; every trace is parsed and judged (header, one row per access from a "
+            "shadow merge of the raw coordinate lists, stamp order, addressing and position), files compared across "
+            "thresholds and with the concatenated in-memory batches. distinct = distinct event-log digest; "
+            "non-trivial = at least two sessions",
+    "components": REAL_KERNEL, "assumptions": KERNEL_ASSUME + [
+        "the look-ahead element a two-finger merge has fetched but not compared when the other side runs out may or may not have a row (both accepted)",
+        "destination-side traces of an inserting populate are only required to be stamp-ordered and complete"],
+}
+REGISTRY["C19"] = {
+    "world": KernelSim, "level": "exploration", "budget": kernel_budget(20000, 400000),
+    "rule": "each evaluation is one sampled kernel with a two-operand intersection under 0-2 outer loops; for each of "
+            "the three models the consumer task drains the consumable traces into a fresh intersector at every subset "
+            "of the first four fiber boundaries (complete), at all boundaries, only at the end, and at random subsets; "
+            "totals are compared with merge counters on the raw coordinate lists. distinct = distinct event-log digest",
+    "components": REAL_KERNEL, "assumptions": KERNEL_ASSUME,
+}
